@@ -25,6 +25,37 @@ user, 1..4 distributed peers, 5..8 other users), connection ids are creation ord
                        returns normally — also when the socket was closed meanwhile, as asyncio's flow control
                        does (same construction as the `gate` op of props/c13.py).
 
+  ["join", n, mode, [op…]]
+        SEARCHES WHILE A CHILD IS BEING ADDED (modelled: `SOp.addBegin / addEnd` of Model/DistSearch.lean). Peer n
+        connects as with ["in", n]; `_add_child` suspends in `await gather(send level, send root)`; the listed ops
+        (carriers; in the blocking modes also closes / further joins) are issued while it is suspended:
+        mode ["soon", d, gap] : nothing blocks. At the instant the library writes our DistributedBranchLevel to the
+                       new connection (hook inside that write), d loop iterations later, the listed carriers are
+                       handed to the library's sockets, `gap` iterations apart (the add is suspended for the 2–3
+                       iterations `gather` needs even on an idle socket);
+        mode ["block"] : drain() of the new connection blocks; the ops are issued one by one, the loop run to
+                       quiescence after each; then the drain is released (returns normally);
+        mode ["timeout"] : as "block", but the drain is never released: 11 virtual seconds later the library's own
+                       10 s write time-out has closed the connection.
+        When the peer is not admitted (no level is written) the ops are issued after the "in" has quiesced.
+  ["pconn", n]  user n opens a peer ("P") connection to us (PeerInit); a later reply to n re-uses it
+  ["rfault", mode, search, [op…]]
+        A REPLY WRITE THAT FAILS LATE (monitor only). The first write of a PeerSearchReply towards the asking user
+        of `search` — on whichever of that user's connections the library picks, an existing one or one it opens
+        now — is faulty; `search` is issued, the loop run to quiescence, each listed op likewise; 11 virtual
+        seconds pass for the time-out modes, the block is lifted, 3 more virtual seconds pass:
+        mode "fail-before"  : write() raises ConnectionResetError, no byte accepted;
+        mode "late-reset"   : the bytes are accepted and delivered, then drain() raises (reset after the flush);
+        mode "timeout"      : the bytes are accepted and delivered, drain() never returns (the library's 10 s write
+                              time-out raises ConnectionWriteError and closes);
+        mode "slow-timeout" : the bytes are accepted but the asker reads nothing; drain() never returns; when the
+                              library closes after its time-out the closing socket flushes what it had accepted;
+        mode "block"        : the bytes are accepted and delivered, drain() blocks and is released later.
+        What is judged is what the ASKER RECEIVED per ticket, summed over all its connections (those it opened,
+        those the library opened to it, incl. any opened later for a second attempt).
+  "fault" has two more modes: "late" (the child's socket accepts the bytes, then drain() raises) and "timeout"
+        (drain() of that child never returns: write time-out after 10 virtual seconds).
+
 After every op the loop is run to quiescence. For a search op the observation is: the DistributedSearchRequest
 frames (and any other frame) each distributed remote received, the PeerSearchReply frames (and anything else)
 each user's peer endpoint received, the SearchRequestReceivedEvents, any other frame the server received
@@ -55,11 +86,20 @@ USERS_DIR = [2]          # users of the USERS-mode directory
 SEARCH_CODE = 3
 
 
+COMPOSITE = ('burst', 'fault', 'join', 'rfault')
+FAULT_MODES = ('fail', 'block', 'late', 'timeout')
+RFAULT_MODES = ('fail-before', 'late-reset', 'timeout', 'slow-timeout', 'block')
+
+
 def _flat_ops(op):
     if op[0] == 'burst':
         return list(op[1])
     if op[0] == 'fault':
         return [op[3]] + list(op[4])
+    if op[0] == 'join':
+        return [['in', op[1]]] + list(op[3])
+    if op[0] == 'rfault':
+        return [op[2]] + list(op[3])
     return [op]
 
 
@@ -176,18 +216,27 @@ def _hx(s: str) -> str:
 # ------------------------------------------------------------------------------------------------
 
 class _Asker:
-    """Peer endpoint of one user (where a reply to that user has to arrive)."""
+    """Peer endpoints of one user (where a reply to that user has to arrive): every connection the library opens to
+    the user's address and every connection the user opened to us ("pconn") is read here; `frames` is what the user
+    received over ALL of them."""
 
     def __init__(self, n: int, closes: bool):
         self.n = n
         self.closes = closes
         self.inits: list = []
         self.frames: list = []
+        self.frame_conn: list = []      # per frame: index of the connection it arrived on
+        self.nconn = 0
 
     async def handler(self, reader, writer):
+        await self.serve(reader, writer, True)
+
+    async def serve(self, reader, writer, expect_init: bool):
         from vlib.simserver import read_frame
         from aioslsk.protocol import messages as m
-        first = True
+        idx = self.nconn
+        self.nconn += 1
+        first = expect_init
         while True:
             frame = await read_frame(reader)
             if frame is None:
@@ -204,6 +253,7 @@ class _Asker:
             except Exception:
                 msg = ('undecodable', frame)
             self.frames.append(msg)
+            self.frame_conn.append(idx)
             if self.closes and isinstance(msg, m.PeerSearchReply.Request):
                 writer.close()          # what a real client does after reading the reply
                 return
@@ -221,7 +271,7 @@ class _UploadInfo:
 
 
 async def _scenario(loop, case: dict):
-    from vlib.simloop import settle
+    from vlib.simloop import settle, advance
     from vlib.fakenet import FakeNet, Endpoint
     from vlib.simserver import SimServer
     from aioslsk.settings import Settings
@@ -301,11 +351,85 @@ async def _scenario(loop, case: dict):
                 r.task = asyncio.ensure_future(r.pump())
             return handler
         askers = {}
+        asker_of_addr = {}
         for n in range(0, 9):
             if n:
                 fn.endpoints[peer_addr(n)] = Endpoint('accept', make_out_handler(n))
             askers[n] = _Asker(n, bool(case.get('asker_closes', True)))
             fn.endpoints[asker_addr(n)] = Endpoint('accept', askers[n].handler)
+            asker_of_addr[asker_addr(n)] = n
+
+        # ---- observation points on the library-side sockets -------------------------------------------------
+        # logical clock: orders "the library began to write our branch level to connection c" against "the bytes of
+        # carrier X were handed to the library's socket"
+        clock = {'t': 0}
+
+        def now() -> int:
+            clock['t'] += 1
+            return clock['t']
+        told_at: dict = {}       # cid (incoming distributed connection) -> time of the first DistributedBranchLevel
+        triggers: dict = {}      # cid -> callback fired inside that first write ("join", mode soon)
+
+        def watch_dist_writer(lw, cid):
+            def on_write(data):
+                if cid in told_at:
+                    return
+                try:
+                    msg = m.DistributedMessage.deserialize_request(bytes(data))
+                except Exception:
+                    return
+                if isinstance(msg, m.DistributedBranchLevel.Request):
+                    told_at[cid] = now()
+                    trig = triggers.pop(cid, None)
+                    if trig is not None:
+                        trig()
+            lw.on_write = on_write
+
+        def is_reply(data) -> bool:
+            try:
+                return isinstance(m.PeerMessage.deserialize_request(bytes(data)), m.PeerSearchReply.Request)
+            except Exception:
+                return False
+
+        def watch_peer_writer(lw, n):
+            """library-side socket of a peer connection with user n: the armed reply fault (op "rfault") strikes the
+            first PeerSearchReply written towards that user, whichever connection carries it"""
+            orig_write = lw.write
+
+            def write(data):
+                f = state.get('reply_fault')
+                if f is None or not f['armed'] or f['user'] != n or not is_reply(data):
+                    return orig_write(data)
+                f['armed'] = False
+                f['hit'] = True
+                mode = f['mode']
+                if mode == 'fail-before':
+                    lw.reset()
+                    raise ConnectionResetError('scripted reset: no byte accepted')
+                if mode == 'slow-timeout':
+                    lw.hold = True             # accepted, not read by the asker; FakeWriter.close() flushes it
+                orig_write(data)
+                if mode == 'late-reset':
+                    async def drain():
+                        await asyncio.sleep(0)
+                        lw.close()
+                        raise ConnectionResetError('scripted reset after the bytes were flushed')
+                else:
+                    async def drain(ev=f['gate']):
+                        await ev.wait()
+                lw.drain = drain
+                f['writer'] = lw
+            lw.write = write
+
+        orig_make_pair = fn.make_pair
+
+        def make_pair(remote_addr):
+            res = orig_make_pair(remote_addr)
+            n = asker_of_addr.get(tuple(remote_addr))
+            if n is not None:
+                watch_peer_writer(res[1], n)
+            return res
+        fn.make_pair = make_pair
 
         await net.connect_listening_ports()
         await settle()
@@ -335,6 +459,8 @@ async def _scenario(loop, case: dict):
                     'children': [cid(p) for p in dn.children],
                     'live': [cid(p) for p in dn.distributed_peers],
                     'open': [r.cid for r in w.remotes if remote_open(r)],
+                    'incoming': [r.cid for r in w.remotes if not r.requested],
+                    'told_at': dict(told_at),
                     'names': {r.cid: r.name for r in w.remotes},
                     'session': state['session'] is not None,
                     'dn_session': dn._session is not None, 'sm_session': sm._session is not None}
@@ -361,11 +487,13 @@ async def _scenario(loop, case: dict):
                         other[r.cid] = other.get(r.cid, 0) + 1
             replies, pother = [], {}
             for n, a in askers.items():
-                for f in a.frames[af[n]:]:
+                for i in range(af[n], len(a.frames)):
+                    f = a.frames[i]
                     if isinstance(f, m.PeerSearchReply.Request):
                         replies.append({'to': n, 'ticket': f.ticket, 'username': unum(f.username),
                                         'visible': sorted(file_key(x) for x in f.results),
-                                        'locked': sorted(file_key(x) for x in (f.locked_results or []))})
+                                        'locked': sorted(file_key(x) for x in (f.locked_results or [])),
+                                        'conn': a.frame_conn[i]})
                     else:
                         pother[n] = pother.get(n, 0) + 1
             srv = [type(x).__qualname__ if not isinstance(x, tuple) else 'undecodable'
@@ -374,19 +502,11 @@ async def _scenario(loop, case: dict):
             return {'fwd': fwd, 'other': other, 'replies': replies, 'pother': pother,
                     'events': [list(e) for e in events[ne:]], 'srv': srv}
 
-        async def issue(op) -> str:
+        inj: list = []           # per issued search sub-op of the current op: logical time (None: not issued)
+
+        def issue_sync(op) -> str:
+            """the ops that only hand bytes to a socket (no await): may also be issued from inside a library write"""
             k = op[0]
-            if k == 'session':
-                if state['session'] is not None:
-                    return 'already'
-                if net.server_connection.state != ConnectionState.CONNECTED:
-                    await net.connect_server()
-                sess = Session(user=User(name=uname(ME)), ip_address='1.2.3.4', greeting='',
-                               client_version=157, minor_version=100)
-                state['session'] = sess
-                await bus.emit(SessionInitializedEvent(session=sess, raw_message=None))
-                net.server_connection.start_reader_task()
-                return 'ok'
             if k == 'lost':
                 if state['session'] is None or not server_up():
                     return 'no-server'
@@ -408,15 +528,6 @@ async def _scenario(loop, case: dict):
                     msg = m.ResetDistributed.Response()
                 server.send(msg)
                 return 'ok'
-            if k == 'in':
-                n = op[1]
-                rd, wr = await fn.connect_in(LISTEN_PORT, remote_addr=(peer_addr(n)[0], 40000 + len(w.remotes)))
-                r = _Remote(len(w.remotes), n, False)
-                r.reader, r.writer = rd, wr
-                w.remotes.append(r)
-                r.task = asyncio.ensure_future(r.pump())
-                wr.write(m.PeerInit.Request(uname(n), PeerConnectionType.DISTRIBUTED, 0).serialize())
-                return 'ok'
             if k in ('level', 'root', 'close'):
                 c = op[1]
                 if not isinstance(c, int) or c < 0 or c >= len(w.remotes) or not remote_open(w.remotes[c]):
@@ -430,63 +541,190 @@ async def _scenario(loop, case: dict):
                     r.writer.close()
                 return 'ok'
             if k == 'search':
-                _, src, carrier, code, unk, user, ticket, query = op
-                if src == 's':
-                    if carrier != 'server':
-                        return 'bad-op'
-                    if state['session'] is None or not server_up():
-                        return 'no-server'
-                    server.send(m.ServerSearchRequest.Response(code, unk, uname(user), ticket, query))
-                    return 'ok'
-                if carrier not in ('dist', 'legacy'):
-                    return 'bad-op'
-                if not isinstance(src, int) or src < 0 or src >= len(w.remotes) or not remote_open(w.remotes[src]):
-                    return 'no-conn'
-                r = w.remotes[src]
-                if carrier == 'dist':
-                    msg = m.DistributedSearchRequest.Request(unk, uname(user), ticket, query)
-                else:
-                    msg = m.DistributedServerSearchRequest.Request(code, unk, uname(user), ticket, query)
-                r.writer.write(msg.serialize())
-                return 'ok'
+                st = issue_search(op)
+                inj.append(now() if st == 'ok' else None)
+                return st
             raise ValueError(f'unknown op {op!r}')
+
+        def issue_search(op) -> str:
+            _, src, carrier, code, unk, user, ticket, query = op
+            if src == 's':
+                if carrier != 'server':
+                    return 'bad-op'
+                if state['session'] is None or not server_up():
+                    return 'no-server'
+                server.send(m.ServerSearchRequest.Response(code, unk, uname(user), ticket, query))
+                return 'ok'
+            if carrier not in ('dist', 'legacy'):
+                return 'bad-op'
+            if not isinstance(src, int) or src < 0 or src >= len(w.remotes) or not remote_open(w.remotes[src]):
+                return 'no-conn'
+            r = w.remotes[src]
+            if carrier == 'dist':
+                msg = m.DistributedSearchRequest.Request(unk, uname(user), ticket, query)
+            else:
+                msg = m.DistributedServerSearchRequest.Request(code, unk, uname(user), ticket, query)
+            r.writer.write(msg.serialize())
+            return 'ok'
+
+        async def issue(op) -> str:
+            k = op[0]
+            if k == 'session':
+                if state['session'] is not None:
+                    return 'already'
+                if net.server_connection.state != ConnectionState.CONNECTED:
+                    await net.connect_server()
+                sess = Session(user=User(name=uname(ME)), ip_address='1.2.3.4', greeting='',
+                               client_version=157, minor_version=100)
+                state['session'] = sess
+                await bus.emit(SessionInitializedEvent(session=sess, raw_message=None))
+                net.server_connection.start_reader_task()
+                return 'ok'
+            if k == 'in':
+                n = op[1]
+                rd, wr = await fn.connect_in(LISTEN_PORT, remote_addr=(peer_addr(n)[0], 40000 + len(w.remotes)))
+                watch_dist_writer(wr.peer, len(w.remotes))      # wr.peer = the library-side socket of this pair
+                if state.get('gate_next_in') is not None:
+                    state['gate_next_in'](wr.peer)
+                    state['gate_next_in'] = None
+                r = _Remote(len(w.remotes), n, False)
+                r.reader, r.writer = rd, wr
+                w.remotes.append(r)
+                r.task = asyncio.ensure_future(r.pump())
+                wr.write(m.PeerInit.Request(uname(n), PeerConnectionType.DISTRIBUTED, 0).serialize())
+                return 'ok'
+            if k == 'pconn':
+                n = op[1]
+                a = askers[n]
+                rd, wr = await fn.connect_in(LISTEN_PORT, remote_addr=(asker_addr(n)[0], 41000 + len(fn.pairs)))
+                watch_peer_writer(wr.peer, n)
+                w.keep.append(asyncio.ensure_future(a.serve(rd, wr, False)))
+                wr.write(m.PeerInit.Request(uname(n), PeerConnectionType.PEER, 0).serialize())
+                return 'ok'
+            return issue_sync(op)
+
+        def gated(lw):
+            """drain() of this library-side socket blocks until the event is set, then returns normally — also when
+            the socket was closed cleanly meanwhile, as asyncio's flow control does (FlowControlMixin.connection_lost
+            with no exception wakes the drain waiter with a result; same construction as the `gate` op of props/c13.py)"""
+            ev = asyncio.Event()
+
+            async def gated_drain(ev=ev):
+                await ev.wait()
+            lw.drain = gated_drain
+            return (lw, ev)
+
+        def ungate(gate):
+            if gate is not None:
+                gate[1].set()
+                try:
+                    del gate[0].drain
+                except AttributeError:
+                    pass
+
+        def defer(k: int, fn_):
+            if k <= 0:
+                fn_()
+            else:
+                loop.call_soon(defer, k - 1, fn_)
 
         trace = []
         for op in case['ops']:
             before = tree()
             mk = marks()
+            del inj[:]
+            extra = {}
             if op[0] == 'burst':
                 status = 'burst:' + ','.join([await issue(sub) for sub in op[1]])
             elif op[0] == 'fault':
                 _, victim, mode, sop, during = op
                 sts, gate = [], None
                 ok_v = (isinstance(victim, int) and 0 <= victim < len(w.remotes)
-                        and remote_open(w.remotes[victim]))
+                        and remote_open(w.remotes[victim]) and mode in FAULT_MODES)
                 if ok_v:
                     lw = w.remotes[victim].writer.peer        # the library-side writer of that connection
                     if mode == 'fail':
                         lw.fail_after = len(lw.sent)
+                    elif mode == 'late':
+                        async def late_drain(lw=lw):
+                            await asyncio.sleep(0)
+                            lw.close()
+                            raise ConnectionResetError('scripted reset after the bytes were flushed')
+                        lw.drain = late_drain
+                        gate = (lw, asyncio.Event())
                     else:
-                        ev = asyncio.Event()
-
-                        async def gated_drain(ev=ev):
-                            await ev.wait()
-                        lw.drain = gated_drain
-                        gate = (lw, ev)
+                        gate = gated(lw)
                 try:
                     sts.append(await issue(sop))
                     await settle()
                     for sub in during:
                         sts.append(await issue(sub))
                         await settle()
+                    if ok_v and mode == 'timeout':
+                        await advance(11.0)                   # the library's write time-out (10 s) strikes
                 finally:
-                    if gate is not None:
-                        gate[1].set()
-                        try:
-                            del gate[0].drain
-                        except AttributeError:
-                            pass
+                    ungate(gate)
                 status = 'fault:' + ','.join(sts) + ('' if ok_v else ':nofault')
+            elif op[0] == 'join':
+                _, n, mode, during = op
+                newc = len(w.remotes)
+                pending = list(during)
+                sts, gate = [], []
+                if mode[0] == 'soon':
+                    def fire(d=int(mode[1]), gap=int(mode[2])):
+                        # called from inside the library's write of our branch level to the new connection
+                        def run_next():
+                            if pending:
+                                sts.append(issue_sync(pending.pop(0)))
+                                if pending:
+                                    defer(gap, run_next)
+                        defer(d, run_next)
+                    triggers[newc] = fire
+                elif mode[0] in ('block', 'timeout'):
+                    state['gate_next_in'] = lambda lw: gate.append(gated(lw))
+                else:
+                    raise ValueError(f'unknown join mode {mode!r}')
+                try:
+                    first = await issue(['in', n])
+                    await settle()
+                    triggers.pop(newc, None)
+                    while pending:                 # blocking modes; or nothing was written to the new connection
+                        sts.append(await issue(pending.pop(0)))
+                        if mode[0] != 'soon':
+                            await settle()
+                    if mode[0] == 'timeout':
+                        await advance(11.0)
+                finally:
+                    state['gate_next_in'] = None
+                    triggers.pop(newc, None)
+                    for g in gate:
+                        ungate(g)
+                extra['joined'] = newc
+                status = 'join:' + ','.join([first] + sts)
+            elif op[0] == 'rfault':
+                _, mode, sop, during = op
+                if mode not in RFAULT_MODES:
+                    raise ValueError(f'unknown rfault mode {mode!r}')
+                f = {'user': sop[5], 'mode': mode, 'armed': True, 'hit': False, 'gate': asyncio.Event(),
+                     'writer': None}
+                state['reply_fault'] = f
+                sts = []
+                try:
+                    sts.append(await issue(sop))
+                    await settle()
+                    for sub in during:
+                        sts.append(await issue(sub))
+                        await settle()
+                    if mode in ('timeout', 'slow-timeout'):
+                        await advance(11.0)
+                finally:
+                    f['armed'] = False
+                    f['gate'].set()
+                    state['reply_fault'] = None
+                await settle()
+                await advance(3.0)                 # a second attempt made a little later is seen too
+                extra['fault_hit'] = f['hit']
+                status = 'rfault:' + ','.join(sts)
             else:
                 status = await issue(op)
             await settle()
@@ -495,6 +733,8 @@ async def _scenario(loop, case: dict):
             snap['before'] = before
             mk = (mk[0] + [0] * (len(w.remotes) - len(mk[0])), mk[1], mk[2], mk[3])
             snap.update(delta(mk))
+            snap.update(extra)
+            snap['inj'] = list(inj)
             snap['is_search'] = any(o[0] == 'search' for o in _flat_ops(op))
             snap['exceptions'] = len(loop.exceptions)
             snap['reply_tasks'] = len(sm._search_reply_tasks)
@@ -534,7 +774,7 @@ def _canon(s: dict) -> str:
     rs = sorted(f"{r['to']}:{r['ticket']}:{r['username']}:{_lst(map(_hx, r['visible']), ',')}:"
                 f"{_lst(map(_hx, r['locked']), ',')}" for r in s['replies'])
     es = sorted(f'{e[0]}:{_hx(e[1])}:{e[2]}' for e in s['events'])
-    st = s['status'].split(':')[0] if s['status'].startswith(('burst', 'fault')) else s['status']
+    st = s['status'].split(':')[0] if s['status'].startswith(COMPOSITE) else s['status']
     extra = ''
     if s['is_search'] and (s['other'] or s['pother'] or s['srv']):
         extra = f" X={sorted(s['other'].items())}{sorted(s['pother'].items())}{s['srv']}"
@@ -552,11 +792,11 @@ def _parse_model(line: str) -> dict:
     return d
 
 
-def _canon_model(lines: list[str]) -> str:
-    """One model line, or the merge of the lines of a burst (outputs united, state of the last one)."""
+def _canon_model(lines: list[str], kind: Optional[str] = None) -> str:
+    """One model line, or the merge of the lines of a composite op (outputs united, state of the last one)."""
     ds = [_parse_model(l) for l in lines]
     last = ds[-1]
-    st = 'burst' if len(ds) > 1 else last['status']
+    st = kind if kind in COMPOSITE else last['status']
     f = sorted(x for d in ds for x in d.get('F', []))
     r = sorted(x for d in ds for x in d.get('R', []))
     e = sorted(x for d in ds for x in d.get('E', []))
@@ -568,7 +808,39 @@ def _canon_model(lines: list[str]) -> str:
 # Monitor: the property statement on the implementation trace (independent of the model)
 # ------------------------------------------------------------------------------------------------
 
+def _sub_multiset(small: list, big: list) -> list:
+    """the elements of `small` that `big` does not cover (multiset difference small − big)"""
+    rest, out = list(big), []
+    for x in small:
+        if x in rest:
+            rest.remove(x)
+        else:
+            out.append(x)
+    return out
+
+
 def _monitor(case: dict, trace: list) -> list[Violation]:
+    """The property statement, evaluated on what the remote ends RECEIVED.
+
+    CURRENT CHILD, observably. The library makes an incoming distributed connection its child by writing our
+    DistributedBranchLevel to it, and it writes branch levels to nobody but children (`_add_child`,
+    `_notify_children_of_branch_values`). Reading used here: connection c is a current child for carrier X when
+      (1) c is an incoming (not requested by us) distributed connection,
+      (2) the library had BEGUN to write a DistributedBranchLevel to c before the bytes of X were handed to the library's
+          socket (logical clock of the harness: `told_at[c] < inj[X]`) — so X is *handled* after that send began, whether
+          the send has completed, is still suspended in drain(), or completes 1–2 loop iterations later —, and
+      (3) c is open at both ends when the op has quiesced (a connection that closes meanwhile, by either side or by the
+          library's own write time-out, is exempt: a carrier handled around a close may or may not still be written).
+    Every such c must receive X exactly once. This does not flag the unchanged tree: `children.append` precedes the level
+    write in `_add_child`, and an entry leaves `children` only through the CLOSED event of its connection
+    (theorems `C14_told_is_child`, `C14_child_until_closed`, `C14_adding_served` state this for the model).
+    In addition (as before) the connections the library itself lists as children before the op are required — for
+    composite ops with faults / membership changes only those that are still listed and open at the end.
+    Nobody may receive a carrier more often than it was sent to us, nor with other user / ticket / query.
+
+    REPLIES are counted at the asking user over ALL of its connections: per carrier with matches exactly one (when the first
+    write of the reply was refused before a byte was accepted — "rfault fail-before" — none or one), and over the whole
+    history never more replies per (user, ticket) than carriers issued for it."""
     vs: list[Violation] = []
     layout = case.get('layout', 1)
 
@@ -576,34 +848,64 @@ def _monitor(case: dict, trace: list) -> list[Violation]:
         vs.append(Violation(sig, f'after op #{k} {case["ops"][k]}: {what}', case, observed=observed,
                             required=required))
 
+    issued: dict = {}         # (user, ticket) -> carriers handed to the library so far
+    received: dict = {}       # (user, ticket) -> replies that user received so far (any connection, any op)
+    flagged: set = set()
+
     for k, (op, s) in enumerate(zip(case['ops'], trace)):
         subs = _flat_ops(op)
-        if not any(o[0] == 'search' for o in subs):
+        composite = s['status'].startswith(COMPOSITE)
+        statuses = s['status'].split(':')[1].split(',') if composite else [s['status']]
+        inj = s.get('inj') or []
+        reqs_t, j = [], 0
+        for o, st in zip(subs, statuses):
+            if o[0] == 'search':
+                t = inj[j] if j < len(inj) else None
+                j += 1
+                if st == 'ok':
+                    reqs_t.append((o, t))
+                    issued[(o[5], o[6])] = issued.get((o[5], o[6]), 0) + 1
+        # --- whole history: a user never receives more replies for a ticket than carriers were issued for it
+        #     (replies that arrive late, during an op that carries no search, are counted here too)
+        for r in s['replies']:
+            key = (r['to'], r['ticket'])
+            received[key] = received.get(key, 0) + 1
+            if r['to'] in BLOCKED_SEARCH or r['to'] == ME or key in flagged:
+                continue
+            if received[key] > issued.get(key, 0):
+                flagged.add(key)
+                add('C14-reply-duplicate', f'user {r["to"]} has received {received[key]} search replies with ticket '
+                    f'{r["ticket"]} (over all of its connections) for {issued.get(key, 0)} carrier(s) with that ticket',
+                    k, observed=[x for x in s['replies'] if (x['to'], x['ticket']) == key],
+                    required='at most one reply per carrier')
+        if not reqs_t:
             continue
-        statuses = (s['status'].split(':')[1].split(',') if s['status'].startswith(('burst', 'fault'))
-                    else [s['status']])
-        reqs = [o for o, st in zip(subs, statuses) if o[0] == 'search' and st == 'ok']
+        reqs = [o for o, _t in reqs_t]
         b = s['before']
-        children = list(b['children'])
-        allowed = list(children)
-        if op[0] == 'fault':
-            # membership changes while the carrier is being passed on: "every current child" is demanded of the
-            # connections that were children when the carrier arrived AND still are at the end (a child whose own
-            # write failed or that was closed meanwhile is exempt); a child that joined meanwhile may or may not
-            # get it.
-            allowed = children + [c for c in s['children'] if c not in children]
-            children = [c for c in children if c in s['children'] and c in s['open']]
         parent = b['parent']
         logged_in = b['session'] and b['dn_session'] and b['sm_session']
+        kids_b, kids_a = list(b['children']), list(s['children'])
+        incoming, told, open_end = set(s.get('incoming', [])), s.get('told_at', {}), set(s['open'])
+        if op[0] in ('fault', 'join', 'rfault'):
+            # membership changes / faults while the carrier is being passed on: of the connections the library lists
+            # as children, those are required that were listed when the op began AND still are at the end, open (a
+            # child whose own write failed or that was closed meanwhile is exempt)
+            listed = [c for c in kids_b if c in kids_a and c in open_end and c in b['open']]
+        else:
+            listed = [c for c in kids_b if c in b['open']]
+
+        def observed_children(t):
+            return [c for c in incoming if t is not None and c in told and told[c] < t and c in open_end]
+        allowed = set(kids_b) | set(kids_a) | {c for c in incoming if c in told}
         # --- to no other connection: a forwarded search is only ever received by a current child
         for c, frs in s['fwd'].items():
             if c not in allowed:
                 role = 'the parent' if c == parent else ('a closed/unregistered connection' if c not in b['live']
                                                          else 'a candidate / other distributed connection')
                 add('C14-forward-to-non-child', f'connection {c} ({role}) received {len(frs)} forwarded search '
-                    f'request(s); children are {allowed}', k, observed=frs)
+                    f'request(s); children are {sorted(allowed, key=str)}', k, observed=frs)
         own = [r for r in reqs if r[5] == ME]
-        foreign = [r for r in reqs if r[5] != ME]
+        foreign_t = [(r, t) for r, t in reqs_t if r[5] != ME]
         # --- own searches: neither forwarded nor answered
         if logged_in and own:
             for c, frs in s['fwd'].items():
@@ -615,6 +917,7 @@ def _monitor(case: dict, trace: list) -> list[Violation]:
             if badr:
                 add('C14-own-search-answered', 'a search of the logged-in user was answered', k, observed=badr,
                     required='not answered')
+
         # --- in-scope requests: from the server while we are branch root, or from the parent
         def in_scope(r):
             if r[2] == 'server':
@@ -622,30 +925,44 @@ def _monitor(case: dict, trace: list) -> list[Violation]:
             if r[2] == 'legacy' and r[3] != SEARCH_CODE:
                 return False                      # not a search request
             return r[1] == parent
-        scoped = [r for r in foreign if in_scope(r)]
-        unscoped = [r for r in foreign if not in_scope(r)]
+        scoped_t = [(r, t) for r, t in foreign_t if in_scope(r)]
+        unscoped = [r for r, _t in foreign_t if not in_scope(r)]
         if not unscoped and not (own and not logged_in):
             # every frame seen is attributable to the scoped requests: exactly once per child, fields preserved
-            want = sorted([r[5], r[6], r[7]] for r in scoped)
-            for c in children:
-                if c not in b['open']:
+            want_all = [[r[5], r[6], r[7]] for r, _t in scoped_t]
+            seen_by = {c: [t for r, t in scoped_t if c in observed_children(t)] for c in incoming}
+            conns = set(listed) | set(s['fwd'].keys()) | {c for c, ts in seen_by.items() if ts}
+            for c in sorted(conns, key=str):
+                if c not in allowed:
                     continue
-                got = sorted([fr[1], fr[2], fr[3]] for fr in s['fwd'].get(c, []) if fr[1] != ME or not logged_in)
-                if got != want:
-                    if len(got) < len(want):
-                        sig, what = 'C14-fanout-missing', 'did not receive the search request'
-                        if op[0] == 'fault':
-                            what += (f' (it was a child when the carrier arrived and still is; connection {op[1]} '
-                                     f'had a {"failing write" if op[2] == "fail" else "blocked drain()"} meanwhile)')
-                    elif len(got) > len(want):
-                        sig, what = 'C14-fanout-duplicate', 'received the search request more than once'
-                    else:
-                        sig, what = 'C14-fanout-altered', 'received the search request with altered user/ticket/query'
-                    add(sig, f'child connection {c} {what}', k, observed=got, required=want)
+                got = [[fr[1], fr[2], fr[3]] for fr in s['fwd'].get(c, []) if fr[1] != ME or not logged_in]
+                must = [[r[5], r[6], r[7]] for r, t in scoped_t
+                        if c in listed or c in observed_children(t)]
+                extra = _sub_multiset(got, want_all)
+                missing = _sub_multiset(must, got)
+                if not extra and not missing:
+                    continue
+                if missing and extra and len(missing) == len(extra) and not any(x in want_all for x in extra):
+                    sig, what = 'C14-fanout-altered', 'received the search request with altered user/ticket/query'
+                elif missing:
+                    sig, what = 'C14-fanout-missing', 'did not receive the search request'
+                    if c not in listed:
+                        what += (' (the library had begun to send it our branch level before the carrier was handed over and '
+                                 'the connection is still open: a current child)')
+                    elif op[0] == 'fault':
+                        what += (f' (it was a child when the carrier arrived and still is; connection {op[1]} '
+                                 f'had a faulty socket [{op[2]}] meanwhile)')
+                    elif op[0] == 'join':
+                        what += ' (it was a child when the op began and still is; another child was being added)'
+                elif any(x in want_all for x in extra):
+                    sig, what = 'C14-fanout-duplicate', 'received the search request more than once'
+                else:
+                    sig, what = 'C14-fanout-altered', 'received a search request with altered user/ticket/query'
+                add(sig, f'child connection {c} {what}', k, observed=sorted(got), required=sorted(must))
             # --- answers
             if logged_in:
                 want_r = []
-                for r in scoped:
+                for r, _t in scoped_t:
                     if r[5] in BLOCKED_SEARCH:
                         continue                  # search-blocked users: nothing demanded either way
                     v, l = _expected(layout, r[5], r[7])
@@ -653,6 +970,14 @@ def _monitor(case: dict, trace: list) -> list[Violation]:
                         want_r.append({'to': r[5], 'ticket': r[6], 'username': ME, 'visible': v, 'locked': l})
                 got_r = [r for r in s['replies'] if r['to'] not in BLOCKED_SEARCH and r['to'] != ME]
                 key = lambda r: (r['to'], r['ticket'], str(r['username']), r['visible'], r['locked'])
+                if op[0] == 'rfault' and op[1] == 'fail-before' and s.get('fault_hit'):
+                    # the socket refused the first write of the reply to op[2]'s carrier before accepting a byte:
+                    # nothing can have arrived from that attempt; whether the library tries again is not demanded
+                    lost = _sub_multiset(sorted(map(key, want_r)), sorted(map(key, got_r)))
+                    for x in want_r:
+                        if (x['to'], x['ticket']) == (op[2][5], op[2][6]) and key(x) in lost:
+                            want_r.remove(x)
+                            break
                 if sorted(map(key, got_r)) != sorted(map(key, want_r)):
                     gk, wk = sorted(map(key, got_r)), sorted(map(key, want_r))
                     if not wk:
@@ -660,13 +985,17 @@ def _monitor(case: dict, trace: list) -> list[Violation]:
                     elif len(gk) < len(wk):
                         sig, what = 'C14-reply-missing', 'no reply reached the asking user although the shares hold matches'
                     elif len(gk) > len(wk):
-                        sig, what = 'C14-reply-duplicate', 'more replies than requests with matches'
+                        sig, what = 'C14-reply-duplicate', ('the asking user received more replies (over all of its '
+                                                            'connections) than requests with matches were sent to us')
                     elif sorted((g[0], g[1]) for g in gk) != sorted((x[0], x[1]) for x in wk):
                         sig, what = 'C14-reply-wrong-user-or-ticket', 'reply sent to another user or with another ticket'
                     elif any(g[2] != str(ME) for g in gk):
                         sig, what = 'C14-reply-wrong-username', 'reply does not carry the own username'
                     else:
                         sig, what = 'C14-reply-content', 'reply does not carry exactly the matching visible / locked files'
+                    if op[0] == 'rfault':
+                        what += (f' (the first write of the reply met a faulty socket [{op[1]}'
+                                 f'{"" if s.get("fault_hit") else ", not reached"}])')
                     add(sig, what, k, observed=got_r, required=want_r)
     return vs
 
@@ -683,7 +1012,7 @@ CODES = [3, 3, 3, 3, 0, 4, 93, 255]
 def _gen_case(rng: random.Random, kind: Optional[str] = None) -> dict:
     peers = [1, 2, 3, 4]
     kind = kind or rng.choice(['root', 'root', 'parent', 'parent', 'parent', 'churn', 'churn', 'sources', 'burst',
-                               'nosession', 'fault', 'fault'])
+                               'nosession', 'fault', 'fault', 'join', 'join', 'join', 'rfault', 'rfault'])
     layout = rng.choice([0, 1, 1, 2, 2, 2, 3])
     ops: list = []
     nconn = 0
@@ -821,10 +1150,10 @@ def _gen_case(rng: random.Random, kind: Optional[str] = None) -> dict:
         kids = list(range(first, first + k))
         victim = rng.choice([kids[0], kids[0], kids[-1], kids[len(kids) // 2], rng.choice(kids)])
         others = [c for c in kids if c != victim]
-        mode = rng.choice(['fail', 'block', 'block'])
+        mode = rng.choice(['fail', 'block', 'block', 'late', 'timeout'])
         during: list = []
         x = rng.random()
-        if mode == 'block':
+        if mode in ('block', 'timeout'):
             if x < 0.40:
                 during = [['close', victim]]
             elif x < 0.75:
@@ -839,6 +1168,78 @@ def _gen_case(rng: random.Random, kind: Optional[str] = None) -> dict:
         do(['fault', victim, mode, search(src, foreign=True), during])
         if rng.random() < 0.5:
             do(search(src, foreign=True))
+    elif kind == 'join':
+        # carriers arrive while a child is being added (`_add_child` suspended in its sends to the joining peer)
+        names = [1, 2, 3, 4, 5, 8]
+        par, pname = None, None
+        if rng.random() < 0.5:
+            pname = rng.choice(peers)
+            par = nconn
+            do(['pp', [pname]])
+            do(['level', par, rng.choice([0, 1, 2, 3])])
+            if ops[-1][2] != 0 or rng.random() < 0.5:
+                do(['root', par, rng.choice([5, 6])])
+        k = rng.choice([0, 1, 1, 2, 2, 3])
+        first = nconn
+        pool = [x for x in names if x != pname]
+        for nm in rng.sample(pool, k):
+            do(['in', nm])
+        kids = list(range(first, first + k))
+        if rng.random() < 0.15:
+            do(['stats', ME, 5120 * rng.choice([k, k + 1])])      # the joining peer takes the last slot / finds none
+        src = par if par is not None else 's'
+        mode = rng.choice([['soon', rng.choice([0, 0, 1, 1, 2, 3, 5]), rng.choice([0, 0, 1, 2])]] * 3 +
+                          [['block'], ['block'], ['timeout']])
+        newc = nconn
+        during = [search(src, foreign=rng.random() < 0.85) for _ in range(rng.choice([1, 1, 2, 3]))]
+        if mode[0] != 'soon':
+            x = rng.random()
+            if x < 0.15 and kids:
+                during.insert(rng.randrange(len(during) + 1), ['close', rng.choice(kids)])
+            elif x < 0.27:
+                during.insert(rng.randrange(len(during) + 1), ['close', newc])
+            elif x < 0.37:
+                during.insert(rng.randrange(len(during) + 1), ['in', rng.choice(pool)])
+        joiner = rng.choice(pool) if rng.random() < 0.93 else rng.choice(names)
+        do(['join', joiner, mode, during])
+        for _ in range(rng.choice([0, 1, 1, 2])):
+            do(search(src, foreign=True))
+    elif kind == 'rfault':
+        # the write of the reply fails before / after the socket accepted it, or blocks
+        layout = rng.choice([1, 2, 2])
+        asker = rng.choice([1, 2, 3, 4, 5, 8])
+        q = rng.choice(QUERIES[:9])
+        for _ in range(6):
+            if any(_expected(layout, asker, q)) or rng.random() < 0.12:
+                break
+            q = rng.choice(QUERIES[:9])
+        par = None
+        children(rng.choice([0, 1, 2]))
+        if rng.random() < 0.5:
+            par, _ = get_parent(False)
+        src = par if par is not None else 's'
+
+        def ask(ticket=None, query=None):
+            carrier = 'server' if src == 's' else rng.choice(['dist', 'dist', 'legacy'])
+            return ['search', src, carrier, 3, rng.choice(UNKNOWNS), asker,
+                    rng.choice(TICKETS) if ticket is None else ticket, q if query is None else query]
+        for _ in range(rng.choice([0, 0, 1, 1, 2])):
+            do(['pconn', asker])                       # the asker has peer connections to us already
+        if rng.random() < 0.3:
+            do(ask())                                  # an earlier reply (opens a connection when there is none)
+        mode = rng.choice(RFAULT_MODES)
+        first = ask()
+        during: list = []
+        x = rng.random()
+        if x < 0.2:
+            during = [ask(ticket=first[6] + 1 if first[6] < 2 ** 32 - 1 else 5)]
+        elif x < 0.3:
+            during = [['pconn', asker]]
+        elif x < 0.4:
+            during = [ask(ticket=first[6] + 1 if first[6] < 2 ** 32 - 1 else 5, query=rng.choice(QUERIES[:9]))]
+        do(['rfault', mode, first, during])
+        if rng.random() < 0.5:
+            do(ask(ticket=first[6] + 2 if first[6] < 2 ** 32 - 2 else 6))
     elif kind == 'nosession':
         children(nchild)
         if up and rng.random() < 0.7:
@@ -882,22 +1283,28 @@ def _model_lines(case: dict) -> tuple[list[str], list[int]]:
             out.append(f"ans {u} {_hx(q)} {_lst(map(_hx, v), ',')}|{_lst(map(_hx, l), ',')}")
     head = len(out)
     spans = []
+
+    def line(o):
+        if o[0] == 'pp':
+            return 'pp ' + ' '.join(str(n) for n in o[1])
+        if o[0] == 'search':
+            return ' '.join(['search'] + [str(x) for x in o[1:7]] + [_hx(o[7])])
+        return ' '.join(str(x) for x in o)
     for op in case['ops']:
-        subs = _flat_ops(op)
-        for o in subs:
-            if o[0] == 'pp':
-                out.append('pp ' + ' '.join(str(n) for n in o[1]))
-            elif o[0] == 'search':
-                out.append(' '.join(['search'] + [str(x) for x in o[1:7]] + [_hx(o[7])]))
-            else:
-                out.append(' '.join(str(x) for x in o))
-        spans.append(len(subs))
+        if op[0] == 'join':
+            # the add of the joining peer is suspended (`addbegin`) while the listed ops are handled; it ends by
+            # resuming (`addend`) or by the library's write time-out closing the connection (`addtimeout`)
+            ls = [f'addbegin {op[1]}'] + [line(o) for o in op[3]] + ['addtimeout' if op[2][0] == 'timeout' else 'addend']
+        else:
+            ls = [line(o) for o in _flat_ops(op)]
+        out += ls
+        spans.append(len(ls))
     return out, [head] + spans
 
 
 def _monitor_only(case) -> bool:
-    """faulty / slow child cases: the model is atomic per op"""
-    return any(op[0] == 'fault' for op in case['ops'])
+    """faulty / slow sockets: the model is atomic per op and assumes every write goes through"""
+    return any(op[0] in ('fault', 'rfault') for op in case['ops'])
 
 
 def _eval_case(case):
@@ -1015,8 +1422,8 @@ class C14(Property):
                 start, spans = ent
                 pos = start + spans[0]
                 per_op = []
-                for n in spans[1:]:
-                    per_op.append(_canon_model(out[pos:pos + n]))
+                for n, op in zip(spans[1:], c['ops']):
+                    per_op.append(_canon_model(out[pos:pos + n], op[0]))
                     pos += n
                 model.append(per_op)
         else:
